@@ -11,7 +11,7 @@ Import ListNotations.
 Inductive kind :=
 | KI32 | KI64 | KU32 | KU64           (* INT32 / INT64, signed and unsigned logical types *)
 | KF32 | KF64 | KF16                  (* FLOAT, DOUBLE, FLBA(2)+Float16: IEEE 754 total order *)
-| KD32 | KD64 | KDF                   (* DECIMAL on INT32 / INT64 / FLBA(n) *)
+| KD32 | KD64 | KDF | KDBA            (* DECIMAL on INT32 / INT64 / FLBA(n) / BYTE_ARRAY *)
 | KUTF8 | KBIN                        (* BYTE_ARRAY with / without String, arrow byte-array encoder *)
 | KBOOL
 | KFSB                                (* FLBA(n) without logical type (truncatable) *)
@@ -21,13 +21,14 @@ Definition kind_of_nat (n : nat) : kind :=
   match n with
   | 0 => KI32 | 1 => KI64 | 2 => KU32 | 3 => KU64 | 4 => KF32 | 5 => KF64 | 6 => KF16
   | 7 => KD32 | 8 => KD64 | 9 => KDF | 10 => KUTF8 | 11 => KBIN | 12 => KBOOL | 13 => KFSB
+  | 15 => KDBA
   | _ => KIVL
   end%nat.
 
 (* physical representation in the writer: Z for INT32/INT64/FLOAT/DOUBLE/BOOLEAN (floats by
    their bit pattern), bytes for BYTE_ARRAY / FIXED_LEN_BYTE_ARRAY *)
 Definition phys_bytes (k : kind) : bool :=
-  match k with KF16 | KDF | KUTF8 | KBIN | KFSB | KIVL => true | _ => false end.
+  match k with KF16 | KDF | KDBA | KUTF8 | KBIN | KFSB | KIVL => true | _ => false end.
 
 Definition is_float_kind (k : kind) : bool := match k with KF32 | KF64 | KF16 => true | _ => false end.
 
@@ -45,7 +46,7 @@ Definition nan_z (k : kind) (v : Z) : bool :=
 Definition gt_b (k : kind) (a b : bytes) : bool :=
   match k with
   | KF16 => gt_f16_bytes a b
-  | KDF => gt_decimal_bytes a b
+  | KDF | KDBA => gt_decimal_bytes a b
   | _ => lex_gtb a b
   end.
 Definition nan_b (k : kind) (v : bytes) : bool :=
